@@ -1,5 +1,7 @@
 import ShredModel.Lemmas.Scenario
 import ShredModel.Lemmas.NestedTop
+import ShredModel.Lemmas.Window
+import ShredModel.Lemmas.Effect
 /-!
 # C01 — isolation: conflicting systems never run at the same time
 
@@ -40,5 +42,67 @@ theorem C01_isolation_nested {D : SysTag → Decl} (L : Level D) (par : Bool) (p
   traces_isolated (compatI_symm D) hl (L.wf par pfx) (L.nodup par pfx) p hp x y hxy hx hy
 end Shred
 
+
+namespace Shred
+namespace Scenario
+variable (sc : Scenario)
+
+omit sc in
+/-- the systems inside their window after the events `p` -/
+def openAfter (p : List (Ev SysTag)) : List SysTag :=
+  (p.filterMap fun e => match e with | .F y => some y | .D _ => none).filter fun y => Ev.D y ∉ p
+
+/-- **C01 ("consequently").** When a system begins to fetch, no sibling inside its window holds a
+guard that is incompatible with what the system borrows (`fetchedReads` shared, `fetchedWrites`
+exclusively — a subset of what it declared): nobody else holds any guard on what it writes, nobody
+else holds an exclusive guard on what it reads. By `C08.outcome_spec` (a fetch panics iff an
+incompatible guard is alive) a system that fetches only what it declared therefore never sees a
+borrow-conflict panic caused by a sibling — in every trace, i.e. whatever the pool size or timing. -/
+theorem C01_no_sibling_borrow_conflict (l : List (Ev SysTag)) (hl : Traces sc.plan l)
+    (p l2 : List (Ev SysTag)) (x : SysTag) (hsplit : l = p ++ Ev.F x :: l2)
+    (y : SysTag) (hy : y ∈ openAfter p) (hyx : y ≠ x) (r : ResId) :
+    (r ∈ fetchedWrites (sc.D x) → r ∉ fetchedWrites (sc.D y) ∧ r ∉ fetchedReads (sc.D y)) ∧
+    (r ∈ fetchedReads (sc.D x) → r ∉ fetchedWrites (sc.D y)) := by
+  obtain ⟨z, hz⟩ := sc.good
+  have hnd := nodup_dispatchTask hz sc.tl sc.tl_nodup sc.tl_fresh
+  -- `y` is open after `p ++ [F x]`, and so is `x`
+  simp only [openAfter, List.mem_filter, List.mem_filterMap, decide_eq_true_eq] at hy
+  obtain ⟨⟨e, he, hey⟩, hDy⟩ := hy
+  have hFy : Ev.F y ∈ p := by
+    cases e with
+    | F y' => simp at hey; subst hey; exact he
+    | D y' => simp at hey
+  have hpre : (p ++ [Ev.F x]) <+: l := ⟨l2, by rw [hsplit]; simp⟩
+  have hoy : OpenIn y (p ++ [Ev.F x]) :=
+    ⟨List.mem_append_left _ hFy, by simp [hDy]⟩
+  have hxsys : x ∈ sc.plan.sys := by
+    have := traces_ev_sys hl (Ev.F x) (by rw [hsplit]; simp)
+    simpa [Ev.sys] using this
+  have hDx : Ev.D x ∉ p := by
+    intro hm
+    obtain ⟨p1, p2, hp⟩ := List.append_of_mem hm
+    have hF := traces_F_before_D hl hnd x hxsys p1 (p2 ++ Ev.F x :: l2) (by rw [hsplit, hp]; simp)
+    -- then F x occurs twice
+    have hcount := (traces_once hl hnd x hxsys).1
+    rw [hsplit, hp] at hcount
+    have : 1 ≤ p1.count (Ev.F x) := List.count_pos_iff.mpr hF
+    simp [List.count_append, List.count_cons] at hcount
+    omega
+  have hox : OpenIn x (p ++ [Ev.F x]) := ⟨by simp, by simp [hDx]⟩
+  have hno := sc.C01_isolation l hl (p ++ [Ev.F x]) hpre x y (Ne.symm hyx) hox hoy
+  constructor
+  · intro hr
+    constructor
+    · intro hry
+      exact hno (Or.inl ⟨r, (mem_fetchedWrites _ r).mp hr, Or.inl ((mem_fetchedWrites _ r).mp hry)⟩)
+    · intro hry
+      exact hno (Or.inl ⟨r, (mem_fetchedWrites _ r).mp hr, Or.inr (mem_fetchedReads _ r hry)⟩)
+  · intro hr hry
+    exact hno (Or.inr ⟨r, mem_fetchedReads _ r hr, (mem_fetchedWrites _ r).mp hry⟩)
+
+end Scenario
+end Shred
+
 #print axioms Shred.Scenario.C01_isolation
 #print axioms Shred.C01_isolation_nested
+#print axioms Shred.Scenario.C01_no_sibling_borrow_conflict
